@@ -134,6 +134,10 @@ func c04Fault(s *sm.Session, op *cs.Op, k int64) *sm.Fail {
 		return bad("fault-swallowed", "store call %d (%s) failed but the operation returned success", k, run.KindNames[firedKind])
 	}
 	if out.Err != "" {
+		if f := ghostProbe(s, "C04", []string{"A", "B", "C"}); f != nil {
+			f.Detail += fmt.Sprintf("  [after %s failed with %q, failing store call %d]", op.Kind, clipStr(out.Err, 80), k)
+			return f
+		}
 		after, err := run.Dump(s.H.Raw)
 		if err != nil {
 			return bad("harness", "dump: %v", err)
